@@ -81,7 +81,7 @@ class Section(object):
 
 
 def _work(item):
-    key, pidx, prefix, chunk, seed, validate, qto = item
+    key, pidx, prefix, chunk, seed, validate, qto, backend = item
     factory, params, sigf = _REG[key]
     param = params[pidx]
     sec = Section(key)
@@ -123,7 +123,7 @@ def _work(item):
             if len(sec.inconclusive) < 5:
                 sec.inconclusive.append({'param': _jsonable(param), 'decisions': _jsonable(r.decisions),
                                          'message': r.message})
-    ex = Explorer(body, prefix=prefix, seed=seed, validate=validate, query_timeout_ms=qto)
+    ex = Explorer(body, prefix=prefix, seed=seed, validate=validate, query_timeout_ms=qto, backend=backend)
     try:
         n, frontier = ex.explore(max_paths=chunk, on_path=on_path)
     except Exception:
@@ -137,7 +137,7 @@ def _work(item):
 
 
 def explore_parallel(name, factory, params, signature=None, max_paths=None, chunk=400, seed=0,
-                     validate=True, query_timeout_ms=20000, deadline_s=None, nproc=None):
+                     validate=True, query_timeout_ms=20000, deadline_s=None, nproc=None, backend='z3'):
     """Explore body=factory(param) for every param; split the decision trees dynamically
     over a fork()ed pool.  Returns a Section."""
     t0 = time.time()
@@ -147,7 +147,7 @@ def explore_parallel(name, factory, params, signature=None, max_paths=None, chun
     nproc = nproc or NPROC
     ctx = mp.get_context('fork')
     pending = set()
-    queue = [(key, i, [], chunk, seed, validate, query_timeout_ms) for i in range(len(params))]
+    queue = [(key, i, [], chunk, seed, validate, query_timeout_ms, backend) for i in range(len(params))]
     queue.reverse()
     with cf.ProcessPoolExecutor(max_workers=nproc, mp_context=ctx) as pool:
         def budget_left():
@@ -166,7 +166,7 @@ def explore_parallel(name, factory, params, signature=None, max_paths=None, chun
                 pidx, sec, frontier = f.result()
                 total.merge(sec)
                 for p in frontier:
-                    queue.append((key, pidx, p, chunk, seed, validate, query_timeout_ms))
+                    queue.append((key, pidx, p, chunk, seed, validate, query_timeout_ms, backend))
         total.unexplored += len(queue)
     total.wall_s = time.time() - t0
     return total
